@@ -4,6 +4,7 @@ import (
 	"context"
 	"encoding/binary"
 	"errors"
+	"fmt"
 	"sync"
 	"sync/atomic"
 	"time"
@@ -23,36 +24,83 @@ type Node struct {
 	// ExtraSpec is merged into the spec map (C20 adds domains and sizes for real services).
 	ExtraSpec map[string]any
 
-	gateMu sync.Mutex
-	gates  map[string]chan struct{}
-	held   atomic.Int32
+	gateMu      sync.Mutex
+	gates       map[string]*gate
+	held        atomic.Int32
+	outstanding map[string]int // kind/epoch -> requests made and not yet answered
+}
+
+// Outstanding reports whether a duty request of the kind for the epoch has been
+// made and not yet answered (the node is slow).
+func (n *Node) Outstanding(kind string, epoch uint64) bool {
+	n.gateMu.Lock()
+	defer n.gateMu.Unlock()
+	return n.outstanding[fmt.Sprintf("%s/%d", kind, epoch)] > 0
+}
+
+// request stamps a duty request, waits at the gate if the node is held, and
+// returns the fetch record to be completed and a function to call when answering.
+func (n *Node) request(kind string, epoch uint64, list []uint64) (Fetch, func()) {
+	f := Fetch{Kind: kind, Epoch: epoch, Indices: list}
+	var st Stamp
+	n.w.Log.mu.Lock()
+	n.w.stamp(&st)
+	n.w.Log.mu.Unlock()
+	f.ReqSeq, f.ReqAction, f.ReqPhase, f.ReqClockSlot = st.Seq, st.Action, st.Phase, st.ClockSlot
+	key := fmt.Sprintf("%s/%d", kind, epoch)
+	n.gateMu.Lock()
+	if n.outstanding == nil {
+		n.outstanding = map[string]int{}
+	}
+	n.outstanding[key]++
+	n.gateMu.Unlock()
+	n.gate(kind)
+	return f, func() {
+		n.gateMu.Lock()
+		n.outstanding[key]--
+		n.gateMu.Unlock()
+	}
 }
 
 // Hold makes the node slow: duty requests of the kind (att | prop | sync) block
 // until Release.  The goroutines so held count as quiescent (see World.Quiesce),
 // which lets a history start a second refresh / preparation while the first has
-// not obtained its duties yet.
+// not obtained its duties yet, or move the clock while a request is outstanding.
 func (n *Node) Hold(kind string) {
 	n.gateMu.Lock()
 	defer n.gateMu.Unlock()
 	if n.gates == nil {
-		n.gates = map[string]chan struct{}{}
+		n.gates = map[string]*gate{}
 	}
 	if n.gates[kind] == nil {
-		n.gates[kind] = make(chan struct{})
+		n.gates[kind] = &gate{ch: make(chan struct{})}
 	}
 }
 
 // Release lets the held duty requests of the kind ("" = all kinds) proceed; they
-// answer from the chain as it is now.
+// answer from the chain as it is now.  From this moment they no longer count as
+// held (they are runnable goroutines of vouch again).
 func (n *Node) Release(kind string) {
 	n.gateMu.Lock()
 	defer n.gateMu.Unlock()
-	for k, ch := range n.gates {
+	for k, g := range n.gates {
 		if kind == "" || k == kind {
-			close(ch)
+			n.held.Add(-int32(g.waiting))
+			close(g.ch)
 			delete(n.gates, k)
 		}
+	}
+}
+
+// flush lets the requests that are waiting now proceed but keeps the node slow
+// for the kinds that are held (used when a controller process is stopped).
+func (n *Node) flush() {
+	n.gateMu.Lock()
+	defer n.gateMu.Unlock()
+	for k, g := range n.gates {
+		n.held.Add(-int32(g.waiting))
+		close(g.ch)
+		n.gates[k] = &gate{ch: make(chan struct{})}
 	}
 }
 
@@ -61,13 +109,20 @@ func (n *Node) Held() int { return int(n.held.Load()) }
 
 func (n *Node) gate(kind string) {
 	n.gateMu.Lock()
-	ch := n.gates[kind]
-	n.gateMu.Unlock()
-	if ch != nil {
+	g := n.gates[kind]
+	if g != nil {
+		g.waiting++
 		n.held.Add(1)
-		<-ch
-		n.held.Add(-1)
 	}
+	n.gateMu.Unlock()
+	if g != nil {
+		<-g.ch
+	}
+}
+
+type gate struct {
+	ch      chan struct{}
+	waiting int
 }
 
 // PubKeyOf derives the public key bytes of a validator index.
@@ -138,9 +193,9 @@ func (n *Node) AttesterDuties(_ context.Context, opts *api.AttesterDutiesOpts) (
 	if opts == nil || len(opts.Indices) == 0 {
 		return nil, errors.New("no validator indices specified")
 	}
-	n.gate("att")
 	want, list := asked(opts.Indices)
-	f := Fetch{Kind: "att", Epoch: uint64(opts.Epoch), Indices: list}
+	f, answered := n.request("att", uint64(opts.Epoch), list)
+	defer answered()
 	if n.w.Chain.takeFail("att") {
 		f.Err = true
 		n.w.logFetch(f)
@@ -173,9 +228,9 @@ func (n *Node) ProposerDuties(_ context.Context, opts *api.ProposerDutiesOpts) (
 	if opts == nil {
 		return nil, errors.New("no options")
 	}
-	n.gate("prop")
 	want, list := asked(opts.Indices)
-	f := Fetch{Kind: "prop", Epoch: uint64(opts.Epoch), Indices: list}
+	f, answered := n.request("prop", uint64(opts.Epoch), list)
+	defer answered()
 	if n.w.Chain.takeFail("prop") {
 		f.Err = true
 		n.w.logFetch(f)
@@ -200,9 +255,9 @@ func (n *Node) SyncCommitteeDuties(_ context.Context, opts *api.SyncCommitteeDut
 	if opts == nil || len(opts.Indices) == 0 {
 		return nil, errors.New("no validator indices specified")
 	}
-	n.gate("sync")
 	want, list := asked(opts.Indices)
-	f := Fetch{Kind: "sync", Epoch: uint64(opts.Epoch), Indices: list}
+	f, answered := n.request("sync", uint64(opts.Epoch), list)
+	defer answered()
 	if n.w.Chain.takeFail("sync") {
 		f.Err = true
 		n.w.logFetch(f)
